@@ -46,7 +46,7 @@ def configs(tier, seed):
     out.append({"harness": "ts", "name": "ts-microsecond-lemma", "mode": "real", "validate": False})
     # attribution of records to input packets under cuts, duplicates and reordering (the C05 scenarios, other observation)
     from tlv.harness import c05
-    for c5 in c05.configs(tier, seed):
+    for c5 in c05.configs("quick", seed):          # C05's thorough plans (3 records, 3 cuts) are C05's own subject
         if c5["harness"] != "segmentation" or c5["isn"] != "any":
             continue
         cc = dict(c5)
